@@ -420,6 +420,8 @@ def sync_assembly_model(ctx, repo):
         ("gap-then-gap-again-then-clean", [(R, START), (SEG, chain[0]), (SEG, chain[2]), (SEG, chain[1]), (SEG, chain[2])] + [(SEG, c) for c in chain], ([(START, whole)], 2, True, None),
          "two damaged attempts in a row leave nothing behind for the third"),
         ("budget-exhausted", [(R, START), (SEG, chain[0]), (SEG, chain[2]), (SEG, chain[0]), (SEG, chain[2])], ([], 1, False, "RuntimeError"), "when retry() refuses, the transfer fails loudly and nothing is installed"),
+        ("abandoned-after-two-segments-then-a-new-transfer", [(R, START), (SEG, chain[0]), (SEG, chain[1]), (R, 0)] + [(SEG, c) for c in chain2], ([(0, whole2)], 0, True, None),
+         "a transfer that accepted its first segments and then never heard again (its handler is retired by time-outs, the structure is not told) leaves nothing for the next transfer: that one installs its own chain alone"),
     ]
     for key, script, want, what in cases:
         budget = 1 if key == "budget-exhausted" else 3
@@ -581,6 +583,33 @@ def simulator_chain_concrete(ctx, repo, fi):
             okc = bool(segs) and idx == list(range(len(segs))) and nxt == list(range(1, len(segs))) + [0] and data[:L] == block[start:start + L]
             if not okc and bad is None:
                 bad = (start, L, f"indices {idx[:6]}.., next {nxt[:6]}.., {len(data)} payload bytes, first mismatch at {next((i for i in range(min(L, len(data))) if data[i] != block[start + i]), min(L, len(data)))}")
+    # the simulator's own unreliability: a dropped segment leaves a GAP - the survivors keep their index, their `next` and
+    # their bytes (a client detects the gap and asks again); renumbering them makes a shortened block look complete
+    calls = {"n": 0}
+    drop_at = {3, 5}     # the 3rd and 5th ask (the first ask is for the request as a whole): segments 1 and 3 are dropped
+    interp.attr_hook = lambda _i, b_, a_: (Native(lambda a, k: (calls.__setitem__("n", calls["n"] + 1), calls["n"] in drop_at)[1]) if (b_ is me and a_ == "_should_ignore") else NotImplemented)
+    sent.clear()
+    start_l, L_l = 5, 200
+    lossy = None
+    try:
+        interp.steps = 0
+        interp.call(fi, me, [Obj(None, {"start": start_l, "length": L_l, "sequence": 1}), ("1.1.1.1", 1)])
+        segs = [s_ for s_ in sent if isinstance(s_, tuple) and s_ and s_[0] == "segment"]
+        nseg = -(-L_l // 39)
+        full = [(i, (i + 1) % nseg, block[start_l + 39 * i: start_l + 39 * i + 39]) for i in range(nseg)]
+        want_l = [f for f in full if f[0] not in (1, 3)]
+        got_l = [(s_[1], s_[2], bytes(s_[3][:39]) if isinstance(s_[3], (bytes, bytearray)) else s_[3]) for s_ in segs]
+        # the last segment may carry more than the requested tail (clipped by the client): compare the requested part
+        ok_l = len(got_l) == len(want_l) and all(g_[0] == w_[0] and g_[1] == w_[1] and g_[2][:len(w_[2])][: max(0, start_l + L_l - (start_l + 39 * w_[0]))] == w_[2][: max(0, L_l - 39 * w_[0])] for g_, w_ in zip(got_l, want_l))
+        if not ok_l:
+            lossy = f"indices {[g_[0] for g_ in got_l]}, next {[g_[1] for g_ in got_l]} ({calls['n']} drop decisions asked)"
+    except PyRaise as e:
+        lossy = f"raises {e.what}"
+    except Undecided as e:
+        raise AnalysisError(f"{fi.qual} with an unreliable simulator: {e}")
+    ctx.ob("R6", f"{fi.qual}::dropped-segments-leave-a-gap", lossy is None,
+           f"{fi.qual}: STATU(start={start_l}, length={L_l}) with segments 1 and 3 dropped by the simulator's own unreliability is answered with {lossy}; expected the surviving segments 0, 2, 4, 5 "
+           f"with their own index, next and bytes - renumbered survivors look like a complete, shorter block and the client installs it without asking again", fi.loc)
     ctx.ob("R6", f"{fi.qual}::chain-delivers-the-requested-bytes", bad is None,
            f"{fi.qual}: STATU(start={bad[0] if bad else ''}, length={bad[1] if bad else ''}) is answered with {bad[2] if bad else ''}: a client on a fault-free network cannot assemble the requested range", fi.loc,
            sample={"rule": "R6", "cases": n_cases})
